@@ -16,6 +16,23 @@ check("C16", "model_checking",
       "CPython GIL with switches at traced line/opcode boundaries only; counter method depends only on the two counters; request kinds = those the clients can emit in the scripted run / enumerated call sites.",
       "explicit-state BFS (closure) + pre-emption-bounded schedule enumeration of real threads", "DESIGN.md §2 C16", "E4+E5")
 
+check("C01", "fault_enumeration",
+      "Real async and threaded transfer code against the real simulator on an in-memory network: all 524,800 (start,length) pairs at chain level, the client path for a large subset (thorough: every pair), ALL fate vectors {deliver,drop,dup,delay-past-successor,delay-into-next-attempt} over request+segments of 1-3 segment transfers, deviation-bounded fate vectors on the 27-segment transfer with the configured retry count, and stationary adversaries; oracle = installed bytes/untouched block/request budget.",
+      "One pattern block (neighbouring 39-byte slices differ) with the complement as client block - the transfer code only slices and joins; delays shorter than the gap between transfers; virtual time.",
+      "exhaustive fate-vector enumeration + deviation-bounded fault injection on the real transfer code", "DESIGN.md §2 C01", "E1+E2+E3")
+check("C05", "model_checking",
+      "All histories (stateless, fresh really-connected client per history) up to depth 3/4 over a 13-event alphabet of partial updates (0-3 records, overlapping/repeated positions, 1-byte record, back-to-back messages), refreshes served by the real simulator and a partial update landing mid-refresh; async and threaded clients; lock-step with a sequentially updated reference block; exactly one protocol-range STATQ per STATP.",
+      "positions/values from a small set (handlers treat them opaquely); refresh window of the default snapshot's tables.",
+      "exhaustive bounded-depth history enumeration against a reference model", "DESIGN.md §2 C05", "E1+E2")
+check("C06", "model_checking",
+      "Real protocol.get/lock/wait_for_response of a connected client: 1-3 concurrent callers x arrival offsets x retry counts, ALL reply-fate vectors {deliver,drop,late}, unsolicited noise near timeouts, timer-order (polling jitter) deviations; oracle on datagrams + wait intervals (attempts<=R, fresh request per attempt, one in flight, FIFO service, result iff reply, completion bound). Gates: every gated API invoked on a tick grid around the moment the spa stops answering pings.",
+      "wait intervals observed via a harness-installed wrapper of wait_for_response; virtual time; simulator as responder. The check-then-act gate defect is a recorded known finding.",
+      "exhaustive fate-vector + bounded schedule-deviation exploration of the real request engine", "DESIGN.md §2 C06", "E1+E2+E3")
+check("C07", "model_checking",
+      "Connected client with all five consumers (queue wrapped from outside, handshake included): all arrival sequences up to length 3 over a 13-datagram alphabet (known, unknown, unsolicited, mis-addressed, malformed framing) x relative offsets x active waiter, plus timer-order deviations; each item popped exactly once by unhandled or an accepting consumer, head residence <= 3 polls, mis-addressed content never re-queued, no effect on block/events/observers.",
+      "well-formed payloads for known verbs (malformation at framing level, as the property says).",
+      "exhaustive bounded arrival-sequence enumeration + bounded schedule deviations on the real dispatch code", "DESIGN.md §2 C07", "E1+E2+E3")
+
 NOT_YET = "harness not built yet in this session (planned, see DESIGN.md §2)"
 
 def main():
